@@ -870,7 +870,7 @@ def coq_peer(neighbor):
             f'{int(neighbor.session.peer_as)} {copt(str(rid) if rid else None, cstr)})')
 
 
-def event_cases(impl, rng, hostiles, updates, n_updates):
+def event_cases(impl, rng, hostiles, updates, n_updates, thorough=False):
     """(Coq expression of the model's event line, the real encoder's line) for the event kinds the model builds"""
     import socket
     from exabgp.bgp.message import Message
@@ -888,7 +888,7 @@ def event_cases(impl, rng, hostiles, updates, n_updates):
         inner.time = lambda t: fixed_time
         env = f'(mkEnv {cstr(impl.versions[label])} {cstr(str(fixed_time))} {cstr(socket.gethostname())} {os.getpid()} {os.getppid()})'
         try:
-            for nk in ('as4', 'as2', 'ap'):
+            for nk in (('as4', 'as2', 'ap') if thorough else (('as4', 'as2') if label == 'json6' else ('ap',))):
                 neighbor, nin = impl.neighbors[nk]
                 peer = coq_peer(neighbor)
 
@@ -902,18 +902,18 @@ def event_cases(impl, rng, hostiles, updates, n_updates):
                 cases.append((f'ev_state {env} {counter()} t_state {peer} {cstr("up")}', real, 'up'))
                 real = enc.connected(neighbor)
                 cases.append((f'ev_state {env} {counter()} t_state {peer} {cstr("connected")}', real, 'connected'))
-                for st in list(FSM.STATE)[:3]:
+                for st in list(FSM.STATE)[: (3 if thorough else 1)]:
                     fsm = FSM(None, st)
                     real = enc.fsm(neighbor, fsm)
                     cases.append((f'ev_state {env} {counter()} {cstr("fsm")} {peer} {cstr(fsm.name())}', real, 'fsm'))
-                for h in rng.sample(hostiles, 6):
+                for h in rng.sample(hostiles, 6 if thorough else 3):
                     reason = h.decode('utf-8', 'replace')
                     real = enc.down(neighbor, reason)
                     cases.append((f'ev_down {env} {counter()} {peer} {cstr(reason)}', real, 'down'))
                 for hdr, bdy in ((b'', b''), (header_of(4, b''), b''), (header_of(4, b'x'), b'x')):
                     real = enc.keepalive(neighbor, 'receive', hdr, bdy, nin)
                     cases.append((f'ev_keepalive {env} {counter()} {opt_hex(hdr)} {opt_hex(bdy)} {peer} {cstr("receive")}', real, 'keepalive'))
-                for h in rng.sample(hostiles, 6):
+                for h in rng.sample(hostiles, 6 if thorough else 3):
                     body = rng.choice([bytes([6, 2, len(h[:100])]) + h[:100], bytes([2, 0]) + h, bytes([6, 4, 0])])
                     try:
                         msg = Message.unpack(3, body, nin)
@@ -1324,7 +1324,7 @@ def check(tier, seed):
     upd_cases, ev_cases, upd_notes = [], [], collections.Counter()
     try:
         inners = [impl.encoders['json6'], impl.encoders['json4']._v6]
-        for stub in stub_updates(rng, 400 if thorough else 120):
+        for stub in stub_updates(rng, 400 if thorough else 70):
             for enc in inners:
                 upd_cases.append((abstract_update(enc, stub), enc._update(stub)['message']))
                 upd_notes['stub'] += 1
@@ -1336,7 +1336,7 @@ def check(tier, seed):
         rng.shuffle(pool)
         from exabgp.bgp.message import Message as _Msg
 
-        for nk, code, body in pool[: (400 if thorough else 90)]:
+        for nk, code, body in pool[: (400 if thorough else 50)]:
             nb_, nin_ = nk if isinstance(nk, tuple) else impl.neighbors[nk]
             try:
                 msg = _Msg.unpack(2, body, nin_)
@@ -1346,7 +1346,7 @@ def check(tier, seed):
             enc = rng.choice(inners)
             upd_cases.append((abstract_update(enc, target), enc._update(target)['message']))
             upd_notes['decoded'] += 1
-        ev_cases = event_cases(impl, rng, hostiles, pool[::-1], 60 if thorough else 14)
+        ev_cases = event_cases(impl, rng, hostiles, pool[::-1], 60 if thorough else 8, thorough)
         run.obligation('abstraction of UPDATEs and events for the model ran', True)
     except Exception:
         run.obligation('abstraction of UPDATEs and events for the model ran', False, traceback.format_exc()[-2000:])
